@@ -1063,6 +1063,14 @@ func RunSliceExpr(ctx *Task, expr *ast.SliceExpr) (any, ast.DType, *errchain.PlE
 		stepInt = 1
 	}
 
+	// a step beyond the object's length selects at most one element;
+	// limit it so that the index arithmetic below cannot overflow
+	if stepInt > length {
+		stepInt = length + 1
+	} else if stepInt < -length {
+		stepInt = -length - 1
+	}
+
 	if start != nil {
 		if startT != ast.Int {
 			return nil, ast.Invalid, NewRunError(ctx, "start type must be integer", expr.Start.StartPos())
